@@ -27,6 +27,13 @@ func zzC10Mgr(pre int) {
 			w.issued = append(w.issued, mas...)
 			return err
 		}))
+		// ... and is synced to height 7, the height whose hash a tip of
+		// MaxReorgDepth+7 makes stale
+		b7 := &BlockStamp{Height: 7, Timestamp: time.Unix(1600004200, 0)}
+		b7.Hash[0] = 0xb5
+		b7.Hash[1] = 7
+		zzMust(w.update(func(ns walletdb.ReadWriteBucket) error { return w.mgr.SetSyncedTo(ns, b7) }))
+		w.height = 7
 	}
 	type opT struct {
 		name string
